@@ -175,6 +175,13 @@ func (g *GateDS) Sync(ctx context.Context, prefix ds.Key) error {
 	return err
 }
 
+// AfterCloseCount: the number of operations that arrived after Close.
+func (g *GateDS) AfterCloseCount() int {
+	g.mu.Lock()
+	defer g.mu.Unlock()
+	return g.AfterClose
+}
+
 func (g *GateDS) Close() error {
 	op := &DSOp{Op: "close"}
 	if g.ActorOf != nil {
